@@ -270,4 +270,19 @@ def parseDoc (b : Bytes) : Option J :=
   | some (v, []) => some v
   | _ => none
 
+/-! ## `json.Compact` -/
+
+def isWs (c : Nat) : Bool := c == 32 || c == 10 || c == 13 || c == 9
+
+/-- `json.Compact` on a valid document: insignificant white space (outside strings) is dropped.
+State: inside a string; after a backslash inside a string. -/
+def compactS : Bool → Bool → Bytes → Bytes
+  | _, _, [] => []
+  | false, _, c :: r => if isWs c then compactS false false r else c :: compactS (c == 34) false r
+  | true, true, c :: r => c :: compactS true false r
+  | true, false, c :: r =>
+    c :: (if c == 92 then compactS true true r else if c == 34 then compactS false false r else compactS true false r)
+
+def compact (b : Bytes) : Bytes := compactS false false b
+
 end Evl.Json
